@@ -56,6 +56,11 @@ var c03Loops = []string{
 	"for i in {\"only\": 1} {\n%s}\nfor i in [7, 8] {\n%s}\n",
 	"for j = 0; j < 2; j = j + 1 {\n  for i = 0; i < 2; i = i + 1 {\n%s  }\n  p(j, V)\n}\n",
 	"if true {\n  for i = 0; i < 3; i = i + 1 {\n%s  }\n  p(V)\n}\n",
+	// variables first created by the loop clause / the condition's scope: they belong to the for statement, not to the enclosing block
+	"i = 0\nfor ; i < 3; made_by_post = i {\n  i = i + 1\n%s}\np(made_by_post, f1)\n",
+	"i = 0\nfor ; i < 3; f1 = \"post\" {\n  i = i + 1\n%s}\np(f1)\n",
+	"i = 0\nfor ; ; w2 = i {\n  i = i + 1\n  if i > 3 { break }\n%s}\np(w2)\n",
+	"if true {\n  i = 0\n  for ; i < 2; t1 = i {\n    i = i + 1\n%s  }\n  p(t1, i)\n}\np(t1)\n",
 }
 var c03Bodies = []string{
 	"  p(V, i)\n  V = i\n  p(V)\n",
